@@ -31,7 +31,7 @@ def main():
                       extra_modules=['BctVerif.Model.Rewire', 'BctVerif.Model.Kernel', 'BctVerif.Model.RandBin'])
     ck.lean_gate([], gen_modules=['BctVerif.Gen.Kernels'])
     if ck.tier == 'thorough' and ok:
-        ck.leanchecker(['BctVerif.Props.C01', 'BctVerif.Model.Rewire'])
+        ck.leanchecker(['BctVerif.Props.C01', 'BctVerif.Props.C01Kernel', 'BctVerif.Props.C01RandBin', 'BctVerif.Model.Rewire', 'BctVerif.Model.Kernel', 'BctVerif.Model.RandBin', 'BctVerif.Gen.Kernels'])
     if ck.replay:
         cases = [json.load(open(ck.replay))['case']['case']]
     else:
